@@ -438,6 +438,8 @@ static Type *declspec(Token **rest, Token *tok, VarAttr *attr) {
     if (equal(tok, "_Atomic")) {
       tok = tok->next;
       if (equal(tok , "(")) {
+        // _Atomic(T) is a complete type specifier: an identifier that
+        // follows it is the declarator, even if it is a typedef name.
         ty = typename(&tok, tok->next);
         tok = skip(tok, ")");
       }
@@ -693,8 +695,13 @@ static Type *pointers(Token **rest, Token *tok, Type *ty) {
   while (consume(&tok, tok, "*")) {
     ty = pointer_to(ty);
     while (equal(tok, "const") || equal(tok, "volatile") || equal(tok, "restrict") ||
-           equal(tok, "__restrict") || equal(tok, "__restrict__"))
+           equal(tok, "__restrict") || equal(tok, "__restrict__") ||
+           equal(tok, "_Atomic")) {
+      // 'T *_Atomic p' is an atomic pointer.
+      if (equal(tok, "_Atomic"))
+        ty->is_atomic = true;
       tok = tok->next;
+    }
   }
   *rest = tok;
   return ty;
